@@ -738,10 +738,13 @@ class Path:
         return Path(new_t)
 
     def __repr__(self):
-        return _format_path(self.path_t.__ops__[1:])
+        t_path = self.path_t.__ops__
+        return _format_path(t_path[1:], t_path[0])
 
 
-def _format_path(t_path):
+def _format_path(t_path, root=None):
+    if root is None:
+        root = T
     path_parts, cur_t_path = [], []
     i = 0
     while i < len(t_path):
@@ -759,10 +762,12 @@ def _format_path(t_path):
         path_parts.append(cur_t_path)
 
     if path_parts or not cur_t_path:
-        return 'Path(%s)' % ', '.join([_format_t(part)
+        if root is not T and (not path_parts or type(path_parts[0]) is not list):
+            path_parts.insert(0, [])  # a non-T root is carried by the first T-style part
+        return 'Path(%s)' % ', '.join([_format_t(part, root if i == 0 else T)
                                        if type(part) is list else bbrepr(part)
-                                       for part in path_parts])
-    return _format_t(cur_t_path)
+                                       for i, part in enumerate(path_parts)])
+    return _format_t(cur_t_path, root)
 
 
 class Spec:
@@ -1727,7 +1732,7 @@ def _format_t(path, root=T):
             args, kwargs = arg
             prepr.append(format_invocation(args=args, kwargs=kwargs, repr=bbrepr))
         elif op == 'P':
-            return _format_path(path)
+            return _format_path(path, root)
         elif op == 'x':
             prepr.append(".__star__()")
         elif op == 'X':
